@@ -135,3 +135,42 @@ pub fn next_down(x: f64) -> f64 {
 pub fn idx16(i: u16, len: usize) -> usize {
     ((i as usize) * len) >> 16
 }
+
+// ---------------------------------------------------------------------------------------------
+// the crate under test prints to stdout (println! in several functions): the process' fd 1 is redirected to /dev/null
+// and the harness writes its own lines to a duplicate of the original stdout.
+static REAL_STDOUT: std::sync::OnceLock<std::sync::Mutex<std::fs::File>> = std::sync::OnceLock::new();
+
+pub fn capture_stdout() {
+    use std::os::fd::FromRawFd;
+    unsafe {
+        let saved = libc::dup(1);
+        if saved < 0 {
+            return;
+        }
+        let path = std::ffi::CString::new("/dev/null").unwrap();
+        let null = libc::open(path.as_ptr(), libc::O_WRONLY);
+        if null >= 0 {
+            libc::dup2(null, 1);
+            libc::close(null);
+        }
+        let _ = REAL_STDOUT.set(std::sync::Mutex::new(std::fs::File::from_raw_fd(saved)));
+    }
+}
+
+pub fn out_line(s: &str) {
+    use std::io::Write;
+    match REAL_STDOUT.get() {
+        Some(f) => {
+            let mut f = f.lock().unwrap();
+            let _ = writeln!(f, "{}", s);
+            let _ = f.flush();
+        }
+        None => println!("{}", s),
+    }
+}
+
+#[macro_export]
+macro_rules! outln {
+    ($($arg:tt)*) => { $crate::util::out_line(&format!($($arg)*)) };
+}
